@@ -136,7 +136,14 @@ class GlomError(Exception):
         # defined in pure-python as well as C
         exc_type = type(exc)
         bases = (GlomError,) if issubclass(GlomError, exc_type) else (exc_type, GlomError)
-        exc_wrapper_type = type(f"GlomError.wrap({exc_type.__name__})", bases, {})
+        def __str__(self):
+            # an exception type that renders itself (KeyError, OSError, a
+            # class with its own __str__) comes first in the MRO: once the
+            # error has its trace, that is the message
+            if getattr(self, '_scope', None) is not None:
+                return GlomError.__str__(self)
+            return exc_type.__str__(self)
+        exc_wrapper_type = type(f"GlomError.wrap({exc_type.__name__})", bases, {'__str__': __str__})
         try:
             wrapper = exc_wrapper_type(*exc.args)
             # a constructor that derives its args or attributes from its
